@@ -109,6 +109,7 @@ impl Options {
             Options::FormatList => icu_datagen::keys(&["list/and@1", "list/or@1", "list/unit@1"]),
             Options::FormatNums => icu_datagen::keys(&["decimal/symbols@1"]),
             Options::FormatCurrency => icu_datagen::keys(&[
+                "decimal/symbols@1",
                 "decimal/digits@1",
                 "decimal/symbols@2",
                 "currency/essentials@1",
